@@ -322,7 +322,9 @@ theorem merge_order (ops : List MOp) (left : Bool) :
   cases left <;> simpa [MergeSt.side, MergeSt.init] using this
 
 /-- The merged stream ends only because an input ended, and by then every item of that input has
-been handed over. -/
+been handed over. (Only of *that* input: what the other input still holds is dropped — review C12-1,
+see `merge_survivor_items_dropped_witness` and `merge_output_prefix_of_interleaving` at the end of
+this file for the reading adopted.) -/
 theorem merge_end_complete (ops : List MOp) (h : (MergeSt.init.run ops).1.done = true) :
     ∃ left, ((MergeSt.init.run ops).1.side left).closed = true ∧
       polled left (MergeSt.init.run ops).2 = acceptedOf left (MergeSt.init.run ops).2 := by
@@ -384,5 +386,293 @@ example : (MergeSt.init.run demoOps).1.done = true ∧ (MergeSt.init.run demoOps
   decide
 example : MReach (MergeSt.init.run demoOps).1 := ⟨demoOps, rfl⟩
 example : (MergeSt.init.pollWith true).2 = .pending := by decide
+
+/-! ## Review round 2 (audit/REVIEW-notes.md, section C12) -/
+
+/-! ### review C12-1: the reading of "every item up to the point either input ends" -/
+
+/-- the reviewer's history (`audit/scratch/g3/C12a.lean`): the right input sends 10, 11, 12, then the
+left input (which never sent anything) is closed, then the merged stream is polled once, left first
+(which is also tokio-stream's own first choice: `MergeSt.init.aFirst = true`). -/
+def survivorOps : List MOp :=
+  [.send false 10, .send false 11, .send false 12, .close true, .poll true]
+
+/-- **review C12-1 (HIGH), witness.** `merge` (`/repo/barter-integration/src/stream/merge.rs:6-20`:
+each input is `map(Some).chain(once(ready(None)))` (merge.rs:11-17), the result is
+`left.merge(right).map_while(identity).fuse()` (merge.rs:19), mirrored by `MergeSt.pollWith` of
+`Model/Streams.lean`) ends as soon as the *end marker* of one input is pulled, whatever the other
+input still holds. Concretely: right sends 10, 11, 12 (all accepted); the left sender is dropped; one
+poll (left first) reports the end of the merged stream: nothing was delivered, the right queue still
+holds `[10, 11, 12]`, every later poll reports the end again whatever its fairness choice, and a
+later send on the surviving input fails (`gone`): the three items are dropped. The same happens with
+tokio-stream's own schedule (`MergeSt.poll`).
+
+STREAM-LEVEL READING ADOPTED BY THE SPECIFICATION (`MCfg.allowed`, `merge_refines`,
+`merge_end_complete`): "every item up to the point either input ends" means *up to the position of
+the first end marker in the interleaving the merge chose*. `merge` is pull-based: an input's end is
+observed when its chained `None` is pulled, and the inner `Merge` is free to order that marker of L
+before items R has already queued; "the point either input ends" is a position in the interleaving
+the merge realises, not a wall-clock instant. The items of the surviving input that had not yet been
+consumed when the other input's end was observed are dropped. The positive statement of this reading
+is `merge_output_prefix_of_interleaving` / `merge_output_cut_at_first_end` below; the stronger
+wall-clock reading ("everything any input accepted before the first sender was dropped is delivered")
+is refuted by this history (`merge_wall_clock_reading_refuted`). -/
+theorem merge_survivor_items_dropped_witness :
+    (MergeSt.init.run survivorOps).2 =
+      [.accepted false 10, .accepted false 11, .accepted false 12, .ack, .out .ended] ∧
+    (MergeSt.init.run survivorOps).1.done = true ∧
+    (MergeSt.init.run survivorOps).1.b.queue = [10, 11, 12] ∧
+    (MergeSt.init.run survivorOps).1.b.closed = false ∧
+    acceptedOf false (MergeSt.init.run survivorOps).2 = [10, 11, 12] ∧
+    polled false (MergeSt.init.run survivorOps).2 = [] ∧
+    polled true (MergeSt.init.run survivorOps).2 = [] ∧
+    (∀ f, ((MergeSt.init.run survivorOps).1.pollWith f).2 = .ended) ∧
+    ((MergeSt.init.run survivorOps).1.step (.send false 13)).2 = .gone ∧
+    ((MergeSt.init.run (survivorOps.take 4)).1.poll).2 = .ended := by
+  decide
+
+/-- **review C12-1.** The stronger reading — when the merged stream has ended, *each* input has been
+handed over completely — is false in the model (and in the code: the correspondence runs contain this
+history): `merge_end_complete` can only be had for the input that ended. -/
+theorem merge_wall_clock_reading_refuted :
+    ¬ ∀ (ops : List MOp) (left : Bool), (MergeSt.init.run ops).1.done = true →
+      polled left (MergeSt.init.run ops).2 = acceptedOf left (MergeSt.init.run ops).2 := by
+  intro h
+  have := h survivorOps false (by decide)
+  revert this
+  decide
+
+/-- `Interleave l r o`: `o` is an interleaving of `l` and `r` — every element of `l` and of `r` is
+used exactly once and the order inside `l` and inside `r` is kept. -/
+inductive Interleave {α : Type} : List α → List α → List α → Prop where
+  | nil : Interleave [] [] []
+  | left {x l r o} : Interleave l r o → Interleave (x :: l) r (x :: o)
+  | right {x l r o} : Interleave l r o → Interleave l (x :: r) (x :: o)
+
+theorem Interleave.left_only {α : Type} : ∀ (l : List α), Interleave l [] l
+  | [] => .nil
+  | _ :: l => .left (Interleave.left_only l)
+
+theorem Interleave.right_only {α : Type} : ∀ (r : List α), Interleave [] r r
+  | [] => .nil
+  | _ :: r => .right (Interleave.right_only r)
+
+theorem Interleave.append {α : Type} {l r o l' r' o' : List α} (h : Interleave l r o)
+    (h' : Interleave l' r' o') : Interleave (l ++ l') (r ++ r') (o ++ o') := by
+  induction h with
+  | nil => simpa using h'
+  | left _ ih => exact .left ih
+  | right _ ih => exact .right ih
+
+theorem Interleave.map {α β : Type} (f : α → β) {l r o : List α} (h : Interleave l r o) :
+    Interleave (l.map f) (r.map f) (o.map f) := by
+  induction h with
+  | nil => exact .nil
+  | left _ ih => exact .left ih
+  | right _ ih => exact .right ih
+
+/-- An interleaving has exactly the elements of its two inputs, as often as they have them. -/
+theorem Interleave.length {α : Type} {l r o : List α} (h : Interleave l r o) :
+    o.length = l.length + r.length := by
+  induction h with
+  | nil => rfl
+  | left _ ih => simp [ih]; omega
+  | right _ ih => simp [ih]; omega
+
+/-- The items the merged stream handed over, in the order it handed them over, each tagged with the
+input it came from (`true` = left). -/
+def mergedOut : List MObs → List (Bool × Nat)
+  | [] => []
+  | .out (.item l x) :: r => (l, x) :: mergedOut r
+  | _ :: r => mergedOut r
+
+/-- Whatever was observed: the merged output is an interleaving of what it took from the left input
+and what it took from the right input. -/
+theorem mergedOut_interleave (obs : List MObs) :
+    Interleave ((polled true obs).map (Prod.mk true)) ((polled false obs).map (Prod.mk false))
+      (mergedOut obs) := by
+  induction obs with
+  | nil => exact .nil
+  | cons o r ih =>
+    cases o with
+    | out m =>
+      cases m with
+      | item l x => cases l <;> simpa [polled, mergedOut] using (by first | exact .left ih | exact .right ih)
+      | _ => simpa [polled, mergedOut] using ih
+    | _ => simpa [polled, mergedOut] using ih
+
+/-- **review C12-1, the positive statement of the adopted reading.** For every history of sends,
+sender drops and polls and every fairness choice of every poll (no hypothesis): there are a prefix
+`pl` of what the left input accepted and a prefix `pr` of what the right input accepted — precisely:
+everything accepted except what is still queued — such that the output delivered so far is an
+interleaving of `pl` and `pr` (order inside each input kept, every item at most once, nothing
+invented); and when the merged stream has ended, some input `X` is closed and `X`'s prefix is *all*
+`X` accepted. So the output is an interleaving of the two inputs cut at the first end marker that
+the merge pulled; what the other input still holds at that point (`st.side (!X)).queue`) is not
+delivered (`merge_after_end`, `merge_survivor_items_dropped_witness`). -/
+theorem merge_output_prefix_of_interleaving (ops : List MOp) :
+    ∃ pl pr : List Nat,
+      pl ++ (MergeSt.init.run ops).1.a.queue = acceptedOf true (MergeSt.init.run ops).2 ∧
+      pr ++ (MergeSt.init.run ops).1.b.queue = acceptedOf false (MergeSt.init.run ops).2 ∧
+      pl <+: acceptedOf true (MergeSt.init.run ops).2 ∧
+      pr <+: acceptedOf false (MergeSt.init.run ops).2 ∧
+      Interleave (pl.map (Prod.mk true)) (pr.map (Prod.mk false)) (mergedOut (MergeSt.init.run ops).2) ∧
+      ((MergeSt.init.run ops).1.done = true →
+        ((MergeSt.init.run ops).1.a.closed = true ∧ pl = acceptedOf true (MergeSt.init.run ops).2) ∨
+        ((MergeSt.init.run ops).1.b.closed = true ∧ pr = acceptedOf false (MergeSt.init.run ops).2)) := by
+  have hl := merge_order ops true
+  have hr := merge_order ops false
+  simp only [MergeSt.side] at hl hr
+  refine ⟨polled true (MergeSt.init.run ops).2, polled false (MergeSt.init.run ops).2,
+    by simpa using hl, by simpa using hr, ⟨_, by simpa using hl⟩, ⟨_, by simpa using hr⟩,
+    mergedOut_interleave _, ?_⟩
+  intro hd
+  obtain ⟨left, hc, hp⟩ := merge_end_complete ops hd
+  cases left
+  · exact .inr ⟨by simpa [MergeSt.side] using hc, hp⟩
+  · exact .inl ⟨by simpa [MergeSt.side] using hc, hp⟩
+
+/-- One input of `merge` as the inner `Merge` sees it (merge.rs:11-17): its items wrapped in `some`
+and tagged with the side, followed by the chained end marker `none`. -/
+def marked (left : Bool) (xs : List Nat) : List (Option (Bool × Nat)) :=
+  xs.map (fun x => some (left, x)) ++ [none]
+
+theorem takeWhile_some_append {α : Type} (l : List α) (rest : List (Option α)) :
+    (l.map some ++ none :: rest).takeWhile Option.isSome = l.map some := by
+  induction l with
+  | nil => simp
+  | cons x l ih => simp
+
+/-- **review C12-1, "cut at the first end marker".** When the merged stream has ended (any history,
+any fairness choices), there is an interleaving `w` of the two *marked* inputs — everything the left
+input accepted followed by its end marker, and everything the right input accepted followed by its
+end marker — such that the output delivered is exactly `w` cut at its first end marker
+(`map_while(identity)`, merge.rs:19). The marker of the input that ended may stand in `w` before
+items the other input had already accepted: those are the dropped ones. -/
+theorem merge_output_cut_at_first_end (ops : List MOp)
+    (h : (MergeSt.init.run ops).1.done = true) :
+    ∃ w, Interleave (marked true (acceptedOf true (MergeSt.init.run ops).2))
+        (marked false (acceptedOf false (MergeSt.init.run ops).2)) w ∧
+      w.takeWhile Option.isSome = (mergedOut (MergeSt.init.run ops).2).map some := by
+  obtain ⟨pl, pr, hl, hr, -, -, hi, he⟩ := merge_output_prefix_of_interleaving ops
+  have hi' := hi.map some
+  simp only [List.map_map] at hi'
+  rcases he h with ⟨-, hpl⟩ | ⟨-, hpr⟩
+  · -- the left marker was pulled: left complete, right cut
+    refine ⟨(mergedOut (MergeSt.init.run ops).2).map some ++
+      none :: marked false (MergeSt.init.run ops).1.b.queue, ?_, takeWhile_some_append _ _⟩
+    rw [← hpl, ← hr]
+    simp only [marked, List.map_append, List.append_assoc]
+    exact hi'.append (.left (Interleave.right_only _))
+  · refine ⟨(mergedOut (MergeSt.init.run ops).2).map some ++
+      none :: marked true (MergeSt.init.run ops).1.a.queue, ?_, takeWhile_some_append _ _⟩
+    rw [← hpr, ← hl]
+    simp only [marked, List.map_append, List.append_assoc]
+    exact hi'.append (.right (Interleave.left_only _))
+
+/-! ### review C12-2: the general notice count -/
+
+/-- The script entries the stream ever gets to: everything up to and including the first successful
+connection that stays open (no terminal error, never ends); `init` is not invoked again after it. -/
+def reached : List Conn → List Conn
+  | [] => []
+  | c :: cs => if over c then c :: reached cs else [c]
+
+/-- **review C12-2 (MEDIUM): `one_notice` without its hypothesis.** For every policy and every script
+whose first `init` succeeds: the number of reconnecting notices delivered equals the number of
+script entries that are *reached*, were successfully initialised and are over (ended or hit a
+terminal error). Failed attempts, the connection that stays open, and everything after it contribute
+none. `one_notice` is the special case `reached cs = cs` (every attempt over,
+`reached_of_all_over`). -/
+theorem notice_count (p : Policy) (elems : List Elem) (hang : Bool) (rest : List Conn) :
+    (yields (runEvents p (.initOk elems hang :: rest)).steps).count .reconnecting =
+      ((reached (.initOk elems hang :: rest)).filter (fun c => isOk c && over c)).length := by
+  rw [items_once_in_order]
+  generalize Conn.initOk elems hang :: rest = cs
+  induction cs with
+  | nil => rfl
+  | cons c cs ih =>
+    cases c with
+    | initFail => simpa [segments, reached, over, isOk] using ih
+    | initOk e hg =>
+      by_cases hc : dropped e hg = true
+      · simp [segments, reached, over, isOk, hc, List.count_append, connItems_no_notice, ih]
+      · simp [segments, reached, over, isOk, hc, connItems_no_notice]
+
+/-- When every attempt is over, every script entry is reached (then `notice_count` is `one_notice`). -/
+theorem reached_of_all_over (cs : List Conn) (h : ∀ c ∈ cs, over c = true) : reached cs = cs := by
+  induction cs with
+  | nil => rfl
+  | cons c cs ih =>
+    have hc := h c (by simp)
+    simp [reached, hc, ih (fun x hx => h x (by simp [hx]))]
+
+/-! ### review C12-4: back-off boundaries (multiplier 0; `u64` overflow) -/
+
+/-- **review C12-4 (MEDIUM).** The closed form of `backoff_closed_form` needs no hypothesis on the
+multiplier: for `mult = 0` both sides are `0` (see `backoff_multiplier_zero`). -/
+theorem backoff_closed_form_all (p : Policy) (n : Nat) :
+    backoffAt p (n + 1) = min (p.initial * p.mult ^ (n + 1)) p.max := by
+  by_cases hm : 1 ≤ p.mult
+  · exact backoffAt_closed p hm n
+  · have h0 : p.mult = 0 := by omega
+    simp [backoffAt, h0]
+
+/-- **review C12-4, multiplier 0** (`backoff_multiplier: u8`, stream.rs:170, allows 0). The model
+(mirroring `multiply_backoff`, `/repo/barter-data/src/streams/reconnect/stream.rs:196-200`:
+`next = backoff_ms_current * backoff_multiplier as u64` (line 197), `min(next, backoff_ms_max)`
+(line 198)) gives: the first failed attempt after a success waits `initial`, every further
+consecutive failure waits `0` ms (no floor: re-initialisation is retried without any pause until a
+success resets the back-off to `initial`). -/
+theorem backoff_multiplier_zero (p : Policy) (h : p.mult = 0) :
+    backoffAt p 0 = p.initial ∧ ∀ n, backoffAt p (n + 1) = 0 := by
+  refine ⟨rfl, fun n => ?_⟩
+  simp [backoffAt, h]
+
+/-- **review C12-4, multiplier 0, witness**: policy (initial 1000 ms, multiplier 0, max 30000 ms);
+script "connection drops, five failed attempts, a connection that stays open": the sleeps of the
+whole composed stream are 1000, 0, 0, 0, 0. -/
+theorem backoff_multiplier_zero_witness :
+    (List.range 5).map (backoffAt ⟨1000, 0, 30000⟩) = [1000, 0, 0, 0, 0] ∧
+    sleepsOf (effects (runEvents ⟨1000, 0, 30000⟩
+      [.initOk [.item 1] false, .initFail, .initFail, .initFail, .initFail, .initFail,
+       .initOk [.item 2] true]).steps) = [1000, 0, 0, 0, 0] := by
+  decide
+
+/-- **review C12-4, `u64` overflow is NOT modelled** (PARTIAL, as the file header says). The Rust code
+computes the product in `u64` with a plain `*`
+(`/repo/barter-data/src/streams/reconnect/stream.rs:197`,
+`let next = self.backoff_ms_current * self.policy.backoff_multiplier as u64;`) *before* capping it
+(line 198); the model computes it in `ℕ`. This theorem records only the `ℕ` facts — no claim about
+what the Rust code does at these points:
+* a policy whose three fields fit their Rust types (`initial = 1000 < 2^64`, `mult = 255 < 2^8`,
+  `max = 2^64 - 1`): after six consecutive failures the model's current back-off still fits
+  (`< 2^64`) but the uncapped product of the seventh `multiply_backoff` is `≥ 2^64`; the model goes
+  on with `max`;
+* the reviewer's point (fields of the model's `Policy` are unbounded naturals): initial 1000,
+  multiplier `2^20`, max `2^100`, four failures: the model's *wait itself* is `1000 · 2^80 ≥ 2^64`.
+All the theorems of this file (`backoff`, `backoff_closed_form`, …) are statements about this `ℕ`
+arithmetic; they say nothing about the code where `backoff_ms_current * multiplier ≥ 2^64`. -/
+theorem backoff_u64_overflow_not_modelled_witness :
+    (let p : Policy := ⟨1000, 255, 2 ^ 64 - 1⟩
+     p.initial < 2 ^ 64 ∧ p.mult < 2 ^ 8 ∧ p.max < 2 ^ 64 ∧
+     backoffAt p 6 < 2 ^ 64 ∧ 2 ^ 64 ≤ backoffAt p 6 * p.mult ∧ backoffAt p 7 = p.max) ∧
+    (let q : Policy := ⟨1000, 2 ^ 20, 2 ^ 100⟩
+     backoffAt q 4 = 1000 * 2 ^ 80 ∧ 2 ^ 64 ≤ backoffAt q 4) := by
+  decide
+
+/-! ### the hypotheses / objects above are non-trivial -/
+
+/-- `demo`'s last connection stays open: six entries are over, the seventh is reached, two notices. -/
+example : reached demo = demo ∧
+    ((reached demo).filter (fun c => isOk c && over c)).length = 2 ∧
+    (yields (runEvents ⟨100, 3, 500⟩ demo).steps).count .reconnecting = 2 := by decide
+/-- entries after a connection that stays open are not reached (and `one_notice` does not apply) -/
+example : reached [.initOk [.item 1] true, .initOk [.item 2] false] = [.initOk [.item 1] true] ∧
+    (yields (runEvents ⟨100, 3, 500⟩ [.initOk [.item 1] true, .initOk [.item 2] false]).steps).count
+      .reconnecting = 0 := by decide
+/-- `demoOps` ends with 11, 12 dropped: the output is `[L 1, R 10]`, cut at L's end marker. -/
+example : mergedOut (MergeSt.init.run demoOps).2 = [(true, 1), (false, 10)] := by decide
+example : Interleave [1, 2] [10] [1, 10, 2] := .left (.right (.left .nil))
 
 end BarterModel.Props.C12
